@@ -799,3 +799,83 @@ Proof.
   cbn [fst snd] in *. rewrite delays_app, Hl. cbn [delays flat_map]. rewrite app_nil_r.
   rewrite step_delay_pos by (subst n; lia). rewrite <- Zdiv_Qdiv. reflexivity.
 Qed.
+
+(* ------------------------------------------------------------------ tone(pin, 0): whole sequences *)
+Lemma last_nonempty_in {A} (d : A) : forall l a, In (last (a :: l) d) (a :: l).
+Proof.
+  induction l as [|b l IHl]; intro a; [left; reflexivity|].
+  change (last (a :: b :: l) d) with (last (b :: l) d). right. apply IHl.
+Qed.
+
+Lemma last_in_or_default {A} (l : list A) d : last l d = d \/ In (last l d) l.
+Proof. destruct l as [|a l]; [left; reflexivity|right; apply last_nonempty_in]. Qed.
+
+Lemma positives_In f l : In f (positives l) -> In f l /\ qlt q0 f = true.
+Proof. unfold positives. apply filter_In. Qed.
+
+Lemma audible_ge_half f : qle qhalf f = true -> audible_arg f = true.
+Proof. intro H. unfold audible_arg. rewrite H. apply orb_true_r. Qed.
+
+(* inside the guard the last frequency stays outside (0, 1/2) *)
+Lemma half_guard_last tbl st o :
+  half_guard tbl (b_last st) o = true -> audible_arg (b_last st) = true ->
+  audible_arg (last_after tbl st o) = true.
+Proof.
+  intros H Hl. destruct o as [f dur| |f on off times|s e dq steps|name tempo]; cbn [half_guard last_after] in *.
+  - destruct (qlt q0 f); assumption.
+  - exact Hl.
+  - set (x := match f with Some q => q | None => b_last st end) in *.
+    assert (Hx : audible_arg x = true) by (subst x; destruct f; assumption).
+    destruct (qlt q0 (clamp0 x) && (1 <=? c_int times)) eqn:E; [|exact Hl].
+    apply andb_true_iff in E as [E _].
+    assert (Hp : qlt q0 x = true).
+    { unfold clamp0 in E. destruct (qlt x q0) eqn:Ec in E; [discriminate|exact E]. }
+    rewrite (clamp0_pos _ Hp). exact Hx.
+  - destruct (last_in_or_default (positives (sweep_freqs (clamp0 s) (clamp0 e) (Z.max 1 (c_int steps)))) (b_last st))
+      as [Hd|Hin]; [rewrite Hd; exact Hl|].
+    set (x := last _ _) in *. clearbody x.
+    apply positives_In in Hin as [Hin Hp]. unfold sweep_freqs in Hin.
+    apply in_map_iff in Hin as (i & Hfq & Hi). apply in_seq in Hi. subst x.
+    apply orb_true_iff in H as [H|H].
+    + apply andb_true_iff in H as [Hs He].
+      rewrite (sweep_freq_zero (clamp0 s) (clamp0 e) _ _ (clamp0_nonpos_eq0 s Hs) (clamp0_nonpos_eq0 e He)) in Hp.
+      discriminate.
+    + apply andb_true_iff in H as [Hs He].
+      assert (Hcs : clamp0 s = s).
+      { apply clamp0_pos. apply qlt_true. apply qle_true in Hs. unfold qhalf, q0 in *. lra. }
+      assert (Hce : clamp0 e = e).
+      { apply clamp0_pos. apply qlt_true. apply qle_true in He. unfold qhalf, q0 in *. lra. }
+      rewrite Hcs, Hce. apply audible_ge_half. apply qle_true.
+      apply sweep_freq_ge_half; [apply qle_true; exact Hs|apply qle_true; exact He|lia|lia].
+  - destruct (tlookup name tbl) as [[t0 seq]|]; [|exact Hl].
+    destruct (last_in_or_default (positives (map fst seq)) (b_last st)) as [Hd|Hin]; [rewrite Hd; exact Hl|].
+    set (x := last _ _) in *. clearbody x.
+    apply positives_In in Hin as [Hin _]. apply in_map_iff in Hin as ([f b] & Hf & Hin). cbn in Hf. subst x.
+    rewrite forallb_forall in H. specialize (H _ Hin). cbn in H. exact H.
+Qed.
+
+Lemma half_guard_static_dyn tbl last o :
+  half_guard_static tbl o = true -> audible_arg last = true -> half_guard tbl last o = true.
+Proof.
+  destruct o as [f dur| |[f|] on off times|s e dq steps|name tempo]; cbn; auto.
+Qed.
+
+(* C16_no_zero_tone_sequences_partial *)
+Lemma no_zero_tone_sequences : forall pin neg tbl default ops,
+  audible_arg default = true -> forallb (half_guard_static tbl) ops = true ->
+  Forall (fun t => 1 <= t) (tones (snd (run pin neg tbl (init default) ops))).
+Proof.
+  intros pin neg tbl default ops Hd.
+  assert (G : forall ops st, audible_arg (b_last st) = true -> forallb (half_guard_static tbl) ops = true ->
+              Forall (fun t => 1 <= t) (tones (snd (run pin neg tbl st ops)))).
+  { clear. induction ops as [|o r IH]; intros st Hl Ho; [constructor|].
+    cbn [forallb] in Ho. apply andb_true_iff in Ho as [Ho Hr].
+    pose proof (half_guard_static_dyn tbl (b_last st) o Ho Hl) as Hg.
+    pose proof (no_zero_tone pin neg tbl st o Hg) as H1.
+    pose proof (half_guard_last tbl st o Hg Hl) as L1.
+    rewrite <- (last_frequency_exact pin neg tbl st o) in L1. unfold get_last_frequency in L1.
+    cbn [run]. destruct (dstep pin neg tbl st o) as [st1 e1]. cbn [fst snd] in *.
+    specialize (IH st1 L1 Hr). destruct (run pin neg tbl st1 r) as [st2 e2]. cbn [fst snd] in *.
+    rewrite tones_app. apply Forall_app; split; assumption. }
+  intro Ho. apply G; [exact Hd|exact Ho].
+Qed.
